@@ -23,6 +23,7 @@ type LinkCfg struct {
 	ReorderExtra       time.Duration // extra delay of a reordered packet
 	RateBps            int64         // 0 = unlimited; bytes per second bottleneck (per direction pair)
 	QueueBytes         int64         // finite queue in front of the bottleneck
+	MTU                int           // 0 = none; larger datagrams vanish (what path MTU discovery probes for)
 }
 
 type Packet struct {
@@ -111,6 +112,10 @@ func (f *Fabric) send(from *Endpoint, to net.Addr, data []byte) {
 		return
 	}
 	c := f.Cfg
+	if c.MTU > 0 && len(data) > c.MTU {
+		f.X.Fault("net.mtu-drop")
+		return
+	}
 	cp := append([]byte(nil), data...)
 	delay := c.MinDelay
 	if c.Jitter > 0 {
